@@ -1111,7 +1111,7 @@ def stream_edits(ctx, pq):
     from harness import c10_edits as E
     C.use_shadow()
     rng = ctx.rng
-    n = 44 if ctx.quick() else 440
+    n = 48 if ctx.quick() else 480
     for i in range(n):
         case = E.gen_case(rng)
         case["edit"] = E.EDITS[i % len(E.EDITS)]
